@@ -728,6 +728,9 @@ class Macro:
         # arguments expected we start filling in keyword arguments
         # and defaults.
         if off != self._argument_count:
+            # an explicit caller may already be bound positionally
+            found_caller = "caller" in self.arguments[:off]
+
             for name in self.arguments[len(arguments) :]:
                 try:
                     value = kwargs.pop(name)
